@@ -22,6 +22,8 @@ RULE = (
     "rendering; (b) classifiers and (c) stream strategies likewise (see "
     "c09_extra). Distinct = case hash. Non-trivial = encoding differs from "
     "(float, NaN) and the case has >= 1 labeled and >= 1 unlabeled sample.")
+RULE += (" Further generated dimensions (added while closing seeded "
+         "changes): " + 'classifier variation (GaussianNB, LogisticRegression, tree, class-prior Parzen window); alternative configurations; growing string widths (str_grow) twice' + ".")
 ASSUMPTIONS = [
     "class renamings are strictly increasing, so sorted class order (and "
     "therefore column order) is preserved",
